@@ -355,6 +355,25 @@ pub fn run_case(c: &Case, obs: &mut Obs) -> Result<Outcome, Failure> {
                 (Call::Count, _) => "lin.count",
                 _ => "lin.other",
             };
+            // Known finding (robust set): "out of indices" that counted the cell of a concurrent
+            // acquire which afterwards lost against a lock (IsLocked). Classified exactly: the
+            // history must become linearizable when only the "out of indices" answers that
+            // overlap such an acquire are exempted.
+            if kind == sut::KIND_ROBUST && sig == "lin.out_of_indices" {
+                let pos = |id: usize, begin: bool| evs.iter().position(|e| e.0 == begin && e.2 == id).unwrap();
+                let lost: Vec<usize> = (0..desc.len()).filter(|i| matches!(desc[*i], (_, Call::Acq, Res::AcqLocked))).collect();
+                let mut relaxed_ops = ops.clone();
+                let mut any = false;
+                for f in 0..desc.len() {
+                    if matches!(desc[f], (_, Call::Acq, Res::AcqFull)) && lost.iter().any(|l| pos(*l, true) < pos(f, false) && pos(f, true) < pos(*l, false)) {
+                        relaxed_ops[f] = vec![Step::AllFull { relaxed: true }];
+                        any = true;
+                    }
+                }
+                if any && model::linearize(cap, init, &relaxed_ops, &evs).is_ok() {
+                    fail!("lin.out_of_indices.pending_acquire_lost_to_lock", "T{t}: acquire reported 'out of indices' although no index is owned: the only free cell was occupied by a concurrent acquire that then failed with IsLocked ({}, capacity {cap}); history:{}", sut::KIND_NAMES[kind as usize], hist());
+                }
+            }
             fail!(sig, "no linearization explains T{t}:{call:?} -> {res:?} ({}, capacity {cap}); history:{}", sut::KIND_NAMES[kind as usize], hist());
         }
     };
